@@ -10,7 +10,7 @@ func init() {
 				"the repository's example programs (/repo/test/*.rb with a plain invocation and at most 60 lines; quick tier: a sample of 40 chosen by VERIF_SEED, thorough tier: all) x one of 4 independent fragments (conditional, array + block, builtin call on a union, hash + index; fresh names, no class or method defined) inserted at a solver-chosen top-level statement boundary (both neighbouring rows unindented, complete statements; programs with heredocs left out); program alone vs program + fragment, outputs equal up to the row shift")
 			ci.Config, ci.Budget = "", 80000000
 			return []*Job{ci, f4Job("interfere", "VerifInterfere", n, []string{"ran"}, []string{"C11-shift"},
-				"host program (20 hosts: if/else narrowing, builtin calls, def+call, class method, do-block, case/in, brace block+elsif, guard clause, modifier-unless, index expressions, splat method, keyword errors, operator assignments, while + case/when, nested index, value-less guard clause, explicit returns; leaf kinds solver variables) x independent fragment (17, none defines a class or a method: conditional, array literal, builtin call on a union, block, string call, modifier-if, while loop, hash literal + lookup, index read/write, string index, failing builtin call, unless/else, case/when, ternary, ||=, brace block); quick tier: the first 12 x 8 pairs in full and a quarter of the others, thorough: all 306 pairs; x every statement boundary of the host that is not the last statement of its body; host alone vs host+fragment in one path (Snapshot/Restore)")}
+				"host program (22 hosts: if/else narrowing, builtin calls, def+call, class method, do-block, case/in, brace block+elsif, guard clause, modifier-unless, index expressions, splat method, keyword errors, operator assignments, while + case/when, nested index, value-less guard clause, explicit returns, unresolved calls with and without blocks; leaf kinds solver variables) x independent fragment (17, none defines a class or a method: conditional, array literal, builtin call on a union, block, string call, modifier-if, while loop, hash literal + lookup, index read/write, string index, failing builtin call, unless/else, case/when, ternary, ||=, brace block); quick tier: the first 12 x 8 pairs in full and a quarter of the others, thorough: all 306 pairs; x every statement boundary of the host that is not the last statement of its body; host alone vs host+fragment in one path (Snapshot/Restore)")}
 		},
 		Custom:    replayPair,
 		Filter:    func(v *Violation) bool { return strings.HasPrefix(v.ID, "C11") },
